@@ -374,7 +374,7 @@ spif_str_append(spif_str_t self, spif_str_t other)
     ASSERT_RVAL(!SPIF_STR_ISNULL(self), FALSE);
     REQUIRE_RVAL(!SPIF_STR_ISNULL(other), FALSE);
     if (other->size && other->len) {
-        self->size += other->size - 1;
+        self->size += other->size - ((self->size) ? (1) : (0));
         self->s = (spif_charptr_t) REALLOC(self->s, self->size);
         memcpy(self->s + self->len, SPIF_STR_STR(other), other->len + 1);
         self->len += other->len;
@@ -388,7 +388,7 @@ spif_str_append_char(spif_str_t self, spif_char_t c)
     ASSERT_RVAL(!SPIF_STR_ISNULL(self), FALSE);
     self->len++;
     if (self->size <= self->len) {
-        self->size++;
+        self->size = self->len + 1;
         self->s = (spif_charptr_t) REALLOC(self->s, self->size);
     }
     self->s[self->len - 1] = c;
@@ -405,7 +405,7 @@ spif_str_append_from_ptr(spif_str_t self, spif_charptr_t other)
     REQUIRE_RVAL((other != (spif_charptr_t) NULL), FALSE);
     len = strlen((const char *) other);
     if (len) {
-        self->size += len;
+        self->size += len + ((self->size) ? (0) : (1));
         self->s = (spif_charptr_t) REALLOC(self->s, self->size);
         memcpy(self->s + self->len, other, len + 1);
         self->len += len;
@@ -566,11 +566,12 @@ spif_str_prepend(spif_str_t self, spif_str_t other)
     ASSERT_RVAL(!SPIF_STR_ISNULL(self), FALSE);
     REQUIRE_RVAL(!SPIF_STR_ISNULL(other), FALSE);
     if (other->size && other->len) {
-        self->size += other->size - 1;
+        self->size += other->size - ((self->size) ? (1) : (0));
         self->s = (spif_charptr_t) REALLOC(self->s, self->size);
-        memmove(self->s + other->len, self->s, self->len + 1);
+        memmove(self->s + other->len, self->s, self->len);
         memcpy(self->s, SPIF_STR_STR(other), other->len);
         self->len += other->len;
+        self->s[self->len] = 0;
     }
     return TRUE;
 }
@@ -581,11 +582,12 @@ spif_str_prepend_char(spif_str_t self, spif_char_t c)
     ASSERT_RVAL(!SPIF_STR_ISNULL(self), FALSE);
     self->len++;
     if (self->size <= self->len) {
-        self->size++;
+        self->size = self->len + 1;
         self->s = (spif_charptr_t) REALLOC(self->s, self->size);
     }
-    memmove(self->s + 1, self->s, self->len);
+    memmove(self->s + 1, self->s, self->len - 1);
     self->s[0] = (spif_uchar_t) c;
+    self->s[self->len] = 0;
     return TRUE;
 }
 
@@ -598,11 +600,12 @@ spif_str_prepend_from_ptr(spif_str_t self, spif_charptr_t other)
     REQUIRE_RVAL((other != (spif_charptr_t) NULL), FALSE);
     len = strlen((const char *) other);
     if (len) {
-        self->size += len;
+        self->size += len + ((self->size) ? (0) : (1));
         self->s = (spif_charptr_t) REALLOC(self->s, self->size);
-        memmove(self->s + len, self->s, self->len + 1);
+        memmove(self->s + len, self->s, self->len);
         memcpy(self->s, other, len);
         self->len += len;
+        self->s[self->len] = 0;
     }
     return TRUE;
 }
